@@ -730,7 +730,7 @@ class Interp:
                "HTMLDocument", "Version", "Path", "set", "object", "UserList", "UserString", "type"}
     MODULES = {"re", "json", "os", "posixpath", "urllib", "sys", "copy", "shutil", "hashlib", "importlib", "tempfile"}
     BUILTINS = {"isinstance", "len", "str", "cast", "copy", "deepcopy", "reversed", "range", "enumerate", "list", "dict",
-                "tuple", "getattr", "type", "super", "repr", "sorted", "set", "hasattr", "print", "open"}
+                "tuple", "getattr", "type", "super", "repr", "sorted", "set", "hasattr", "print", "open", "any", "all"}
 
     def global_name(self, name, module_hint=None):
         if name in self.BUILTINS:
